@@ -49,6 +49,7 @@ def cases(draw, maxsteps):
 
 class C36(core.Prop):
     id = "C36"
+    ready = True
     drivers = ["c36_prog", "c36_driver"]
     sizes = {"quick": 300, "thorough": 8000}
     max_workers = 6
